@@ -24,16 +24,11 @@ RootEnumNeedsInnerName(t) ==
     /\ t.kind = "enum"
     /\ \/ \E i \in DOMAIN t.vkinds : t.vkinds[i] = "struct"
        \/ Len(t.vkinds) = 1 /\ t.tagging \in {"internal", "adjacent"}
-(* known finding: an untagged enum { Unit, Struct{..} } is emitted by schemars as anyOf[null, object];
-   as a named definition typify renders the Option wrapper newtype and the inner struct under the
-   same name (the inner type is renamed only on the ["T","null"] path): duplicate item *)
-Known(e, d) == { k \in {"C04-root-enum-without-name-for-inline-type", "C04-named-anyof-null-object-duplicate-name",
-                          "C04-untagged-overlapping-string-variants"} :
+(* (an untagged enum { Unit, Struct{..} }, emitted by schemars as anyOf[null, object], used to render
+   its name twice as a named definition: repaired by baac2f0, no longer excused) *)
+Known(e, d) == { k \in {"C04-root-enum-without-name-for-inline-type", "C04-untagged-overlapping-string-variants"} :
                    CASE k = "C04-root-enum-without-name-for-inline-type" ->
                           d = "C04/NotGenerated" /\ e.route = "root" /\ RootEnumNeedsInnerName(e)
-                     [] k = "C04-named-anyof-null-object-duplicate-name" ->
-                          d = "C04/NotGenerated" /\ e.route = "defs" /\ e.kind = "enum" /\ e.tagging = "untagged"
-                          /\ e.vkinds \in { <<"unit", "struct">>, <<"struct", "unit">> }
                      [] k = "C04-untagged-overlapping-string-variants" ->
                           (* reported at the exchange events of such a type: cur is the type event *)
                           d = "C04/SerializationOfOriginValueRejected" /\ cur.kind = "enum" /\ cur.tagging = "untagged"
